@@ -246,12 +246,136 @@ def run_case(case):
     return res
 
 
+def exec_circuit_src(spec, measured):
+    """An ASYMMETRIC circuit over the spec's registers: a different rotation on every qubit,
+    a CX from the first-created to the last-created qubit, Rz(symbol) per symbol; for the
+    measured family only X / CX (deterministic outcomes) and one Measure per classical bit."""
+    qregs, syms, cregs = spec
+    ln = ["circ = Circuit()"]
+    qs = []
+    for name, size in qregs:
+        ln.append(f"_q_{name} = circ.add_q_register({name!r}, {size})")
+        qs += [f"_q_{name}[{i}]" for i in range(size)]
+    bs = []
+    for name, size in cregs:
+        ln.append(f"_c_{name} = circ.add_c_register({name!r}, {size})")
+        bs += [f"_c_{name}[{i}]" for i in range(size)]
+    if not measured:
+        for i, q in enumerate(qs):
+            ln.append(f"circ.Rx({0.2 * (i + 1)!r}, {q})")
+            ln.append(f"circ.Ry({0.15 * (i + 1)!r}, {q})")
+        if len(qs) > 1:
+            ln.append(f"circ.CX({qs[0]}, {qs[-1]})")
+        for i, sname in enumerate(syms):
+            ln.append(f"circ.Rz(Symbol({sname!r}), {qs[i % len(qs)]})")
+            ln.append(f"circ.Rx({0.3!r}, {qs[i % len(qs)]})")
+    else:
+        for i, q in enumerate(qs):
+            if i % 2 == 0:
+                ln.append(f"circ.X({q})")
+        if len(qs) > 2:
+            ln.append(f"circ.CX({qs[0]}, {qs[1]})")
+        for i, b in enumerate(bs):
+            ln.append(f"circ.Measure({qs[i % len(qs)]}, {b})")
+    return "\n".join(ln) + "\n"
+
+
+def run_exec_case(item):
+    """item = (circuit index, measured?, mode) -> dict(bad=..., cls=...)"""
+    import numpy as np
+    from sympy import Symbol
+    from vlib import gload, hugrvm
+    ci, measured, mode = item
+    spec = circuits()[ci]
+    qregs, syms, cregs = spec
+    nq, ns, nb = shape(spec)
+    if measured and nb == 0:
+        return {"skip": True}
+    if not measured and nb:
+        spec = (qregs, syms, ())
+        nb = 0
+    if measured:
+        if syms:
+            return {"skip": True}      # the measured family has no symbolic gates
+        ns = 0
+    src = exec_circuit_src(spec, measured)
+    ret = bools_ty(nb)
+    fparams = ", ".join([f"q{i}: qubit" for i in range(nq)] + [f"f{i}: float" for i in range(ns)])
+    args = ", ".join([f"q{i}" for i in range(nq)] + [f"angle(f{i})" for i in range(ns)])
+    if mode == "load":
+        src += ("loaded = guppy.load_pytket('loaded', circ, use_arrays=False)\n"
+                f"@guppy\ndef main({fparams}) -> {ret}:\n    return loaded({args})\n")
+    else:
+        params, sret = flat_sig(nq, ns, nb)
+        src += (f"@guppy.pytket(circ)\ndef stub({params}) -> {sret}: ...\n"
+                f"@guppy\ndef main({fparams}) -> {ret}:\n    return stub({args})\n")
+    o, mod = gload.run_src(PRELUDE + src, with_prelude=False)
+    try:
+        if o.kind != "ok":
+            return {"bad": f"{mode} program not accepted: {o.brief()}", "cls": "exec-program-rejected"}
+        circ = mod.__dict__["circ"]
+        h = o.package.modules[0]
+        values = [0.3, 0.7][:ns]
+        # pytket's own answer
+        c2 = circ.copy()
+        names = sorted(str(x) for x in circ.free_symbols())
+        c2.symbol_substitution({Symbol(n): v for n, v in zip(names, values)})   # lexicographic binding
+        m = hugrvm.Machine(h, hugrvm.Chooser())
+        qsv = [m.q.alloc() for _ in range(nq)]
+        m.events.clear()
+        try:
+            vals = m.call("main", qsv + [float(v) for v in values])
+        except (hugrvm.VMUnsupported, hugrvm.VMInvariant, hugrvm.VMBudget) as e:
+            return {"harness": f"{type(e).__name__}: {e}"}
+        if not measured:
+            want = np.asarray(c2.get_statevector())
+            got = m.q.vector(list(range(nq)))
+            k = int(np.argmax(np.abs(want)))
+            if abs(got[k]) < 1e-9 or not np.allclose(want, got * (want[k] / got[k]), atol=1e-7):
+                return {"bad": f"state after the loaded circuit differs from pytket's statevector (qregs={qregs}, symbols={syms}): "
+                               f"{np.round(got, 3)} vs {np.round(want, 3)}", "cls": "wrong-state"}
+            return {"bad": None}
+        # measured family: deterministic bits; expected = pytket shot-free evaluation of the classical X/CX circuit
+        qubits = sorted(circ.qubits)      # lexicographic = the order guppy's arguments are matched in
+        bit_of = {}
+        state = {q: 0 for q in circ.qubits}
+        for cmd in circ.get_commands():
+            nm = cmd.op.type.name
+            if nm == "X":
+                state[cmd.qubits[0]] ^= 1
+            elif nm == "CX":
+                state[cmd.qubits[1]] ^= state[cmd.qubits[0]]
+            elif nm == "Measure":
+                bit_of[cmd.bits[0]] = state[cmd.qubits[0]]
+        want_bits = [bool(bit_of[b]) for b in sorted(circ.bits)]
+        got_bits = [bool(v.tag) if isinstance(v, hugrvm.Sum) else bool(v) for v in vals[:nb]]
+        if nb and isinstance(vals[0], hugrvm.Sum) and vals[0].vals:
+            got_bits = [bool(x) if not isinstance(x, hugrvm.Sum) else bool(x.tag) for x in vals[0].vals]
+        if got_bits != want_bits:
+            return {"bad": f"returned bits {got_bits} but the circuit's classical bits (lexicographic order) are {want_bits} "
+                           f"(qregs={qregs}, cregs={cregs})", "cls": "wrong-bits"}
+        return {"bad": None}
+    finally:
+        if mod is not None:
+            gload.unload(mod)
+
+
 def part_exec(ctx):
-    """PLACEHOLDER — execution-based half of C26, to be filled in once a HUGR interpreter
-    is available: run every enumerated circuit function on basis / product input states and
-    compare state vector, lexicographic parameter binding and per-bit results with pytket's
-    own statevector / shots.  Must return extra coverage counters."""
-    return {}
+    """Execution-based half of C26: the compiled wrapper is run by hugrvm and compared with
+    pytket's own statevector (unitary family) / classical evaluation (measured family)."""
+    items = [(ci, meas, mode) for ci in range(len(circuits())) for meas in (False, True) for mode in ("load", "stub")]
+    res = ctx.pmap(run_exec_case, items, chunk=4)
+    ok = 0
+    for it, r in zip(items, res):
+        if r.get("skip"):
+            continue
+        if r.get("harness"):
+            raise RuntimeError(f"hugrvm could not execute circuit case {it}: {r['harness']}")
+        if r["bad"]:
+            ctx.violation(f"exec:{r['cls']}:{it[2]}:{'measured' if it[1] else 'unitary'}", f"{it}: {r['bad']}", {"exec": list(it)})
+        else:
+            ok += 1
+    return {"exec_cases_agreeing_with_pytket": ok, "exec_cases": len(items)}
 
 
 def run(ctx):
@@ -293,7 +417,7 @@ def run(ctx):
         "outcome_matrix": outcome,
         "statement_silent_outcomes": either,
         "tk2circuit": ALIAS,
-        "execution_part": "pending (part_exec placeholder): behaviour vs pytket statevector not yet checked",
+        "execution_part": "wrappers executed by hugrvm and compared with pytket's statevector / classical bits",
         "harness_errors": len(harness),
         "exhaustive": True,
     }
